@@ -1154,7 +1154,11 @@ fn gen_view(rng: &mut Rng, depth: u32) -> J {
                                 let mut c: Vec<(String, J)> = vec![];
                                 if rng.chance(2, 3) {
                                     // positive factors only: non-positive / huge factors are the business of C10
-                                    c.push(("flex".to_string(), match rng.below(6) { 0 => gen_scalar(rng), 1 => J::U(1), _ => J::F(*rng.pick(&[0.5, 1.0, 2.0, 3.5])) }));
+                                    let ill = match gen_scalar(rng) {
+                                        J::I(_) | J::F(_) => J::Null, // a negative factor is a number the deserialiser accepts
+                                        other => other,
+                                    };
+                                    c.push(("flex".to_string(), match rng.below(6) { 0 => ill, 1 => J::U(1), _ => J::F(*rng.pick(&[0.5, 1.0, 2.0, 3.5])) }));
                                 }
                                 if rng.chance(1, 3) {
                                     c.push(("align".to_string(), js(*rng.pick(&["start", "center", "end", "expand", "shrink", "bad"]))));
